@@ -137,7 +137,7 @@ def conformable(trace):
     if cfg.get("mode") in ("api", "resume", "crash") or "mshape" not in cfg:
         return False
     for e in trace:
-        if e["ev"] in ("Crash", "Hang", "ProcDied", "HoldTimeout") or (e["ev"] == "PStart" and e.get("ov")) or (e["ev"] == "PEnd" and e.get("out") == "overrun"):
+        if e["ev"] in ("Crash", "Hang", "ProcDied", "HoldTimeout", "WFail", "Exit") or (e["ev"] == "PStart" and e.get("ov")) or (e["ev"] == "PEnd" and e.get("out") == "overrun"):
             return False
     return True
 
